@@ -120,3 +120,10 @@ def maxrel(delta, scale, floor=1e-300):
     if d.size == 0:
         return 0.0
     return float(np.max(d / s))
+
+
+def raised_explicitly(e):
+    """True iff the innermost traceback frame's source line is a literal `raise` statement."""
+    fr = traceback.extract_tb(e.__traceback__)[-1]
+    line = (fr.line or "").strip()
+    return line.startswith("raise ") or line == "raise"
